@@ -103,6 +103,9 @@ type Attr struct {
 	// operators without spaces (not gofmt's form).
 	Pad   int  `json:"pad,omitempty"`
 	Tight bool `json:"tight,omitempty"`
+	// Lines spreads the expression itself over several lines (where its form allows it) while the
+	// attribute stays on the line of its neighbours, so that other attributes share its last line.
+	Lines bool `json:"lines,omitempty"`
 }
 
 type ClassItem struct {
